@@ -70,7 +70,7 @@ Section Absence.
     | None => None
     end.
   Definition clear_img (c : cssimg) : cssimg := let '(k, id, a) := c in (k, id, clear_a a).
-  Definition clear_q (q : img_req) : img_req := let '(k, id, a, al) := q in (k, id, clear_a a, al).
+  Definition clear_q (q : img_req) : img_req := let '(k, id, a, al, o) := q in (k, id, clear_a a, al, o).
 
   (* ---- fonts *)
   Lemma font_srcs_effects Wx fx b srcs : effects (fst (font_srcs Wx fx b srcs)) = [].
@@ -219,7 +219,7 @@ Section Absence.
   Proof.
     induction items as [|it r IH]; [split; reflexivity|].
     destruct IH as [A B].
-    destruct it as [rf|its|k id rf al|k id rf|rf].
+    destruct it as [rf|its|k id rf al o|k id rf|rf].
     - cbn [flat_map remove_item]. unfold ref_is.
       destruct (url_join b rf false) as [a|] eqn:E.
       + destruct (load_sheet_abs W true a) as [H1 H2]. fold W' in H1.
@@ -259,7 +259,7 @@ Section Absence.
     image_items b (flat_map (remove_item b u) items) = map clear_q (image_items b items).
   Proof.
     induction items as [|it r IH]; [reflexivity|].
-    destruct it as [rf|its|k id rf al|k id rf|rf]; cbn [flat_map remove_item].
+    destruct it as [rf|its|k id rf al o|k id rf|rf]; cbn [flat_map remove_item].
     - destruct (ref_is b false u rf); simpl; exact IH.
     - simpl. exact IH.
     - destruct rf as [rf|].
@@ -278,15 +278,15 @@ Section Absence.
 
   Lemma sem_req_abs q : effects (sem_req W fails' q) = effects (sem_req W' fails (clear_q q)).
   Proof.
-    destruct q as [[[k id] a] al]. destruct a as [a|]; [|reflexivity].
+    destruct q as [[[[k id] a] al] o]. destruct a as [a|]; [|reflexivity].
     simpl. destruct (fetched_string a =? u) eqn:Eu.
     - apply String.eqb_eq in Eu. rewrite Eu, img_ok_same. reflexivity.
     - simpl. rewrite (img_ok_other _ Eu). reflexivity.
   Qed.
 
-  Lemma sem_kids_abs rec1 rec2 b : (forall v, effects (rec1 v) = effects (rec2 v)) ->
-    forall kids, effects (sem_kids W fails' rec1 b kids) =
-                 effects (sem_kids W' fails rec2 b (flat_map (remove_vref b u) kids)).
+  Lemma sem_kids_abs rec1 rec2 owner oo b : (forall v, effects (rec1 v) = effects (rec2 v)) ->
+    forall kids, effects (sem_kids W fails' rec1 owner oo b kids) =
+                 effects (sem_kids W' fails rec2 owner oo b (flat_map (remove_vref b u) kids)).
   Proof.
     intros Hrec. induction kids as [|v r IH]; [reflexivity|].
     destruct v as [rf|rf]; cbn [flat_map remove_vref].
@@ -294,27 +294,27 @@ Section Absence.
       + destruct (fetched_string a =? u) eqn:Eu.
         * simpl. rewrite E. apply String.eqb_eq in Eu. rewrite Eu, img_ok_same. simpl. exact IH.
         * simpl. rewrite E. rewrite (img_ok_other _ Eu).
-          change (Req (fetched_string a) :: ?x) with ([Req (fetched_string a)] ++ x).
+          change (Req (RkImg (fetched_string a) 0) :: ?x) with ([Req (RkImg (fetched_string a) 0)] ++ x).
           rewrite !effects_app, IH.
           destruct (img_ok W' fails (fetched_string a)); [rewrite Hrec|]; reflexivity.
       + simpl. rewrite E. exact IH.
-    - simpl. destruct (url_join b rf true) as [a|]; [|exact IH].
-      change (Fetch ChUse (fetched_string a) :: ?x) with ([Fetch ChUse (fetched_string a)] ++ x).
-      rewrite !effects_app, IH. reflexivity.
+    - unfold ref_is. destruct (url_join b rf true) as [a|] eqn:E.
+      + destruct (fetched_string a =? u); simpl; rewrite ?E; exact IH.
+      + simpl. rewrite E. exact IH.
   Qed.
 
-  Lemma sem_draw_abs w : forall v,
-    effects (sem_draw W fails' w v) = effects (sem_draw W' fails (remove_world u w) v).
+  Lemma sem_draw_abs w : forall v o,
+    effects (sem_draw W fails' w v o) = effects (sem_draw W' fails (remove_world u w) v o).
   Proof.
-    induction w as [|[k c] w IH]; intros v; [reflexivity|].
+    induction w as [|[k c] w IH]; intros v o; [reflexivity|].
     simpl. destruct (fetched_string k =? v); [|apply IH].
-    destruct c; try reflexivity. simpl. apply sem_kids_abs. exact IH.
+    destruct c; try reflexivity. simpl. apply sem_kids_abs. intros v'. apply IH.
   Qed.
 
   Lemma sem_draw_req_abs q :
     effects (sem_draw_req W fails' q) = effects (sem_draw_req W' fails (clear_q q)).
   Proof.
-    destruct q as [[[k id] a] al]. destruct a as [a|]; [|reflexivity].
+    destruct q as [[[[k id] a] al] o]. destruct a as [a|]; [|reflexivity].
     simpl. destruct (fetched_string a =? u) eqn:Eu.
     - apply String.eqb_eq in Eu. rewrite Eu, img_ok_same. reflexivity.
     - simpl. rewrite (img_ok_other _ Eu).
@@ -346,7 +346,7 @@ Section Absence.
     induction items as [|it r IH]; intros Hatt seen1 seen2 Hseen; [reflexivity|].
     assert (Hr : existsb (attaches b) r = true -> att_ok W fails' u = false).
     { intros H. apply Hatt. simpl. rewrite H. apply orb_true_r. }
-    destruct it as [rf|its|k id rf al|k id rf|rf]; cbn [flat_map remove_item].
+    destruct it as [rf|its|k id rf al o|k id rf|rf]; cbn [flat_map remove_item].
     - destruct (ref_is b false u rf); simpl; apply IH; assumption.
     - simpl. apply IH; assumption.
     - destruct rf as [rf|]; [destruct (ref_is b false u rf)|]; simpl; apply IH; assumption.
@@ -422,7 +422,11 @@ Proof. intros u v H. discriminate. Qed.
 
 (* ---- every string handed to the fetcher is an absolute URL *)
 Definition abs_ev (e : ev) : Prop :=
-  match e with Fetch _ u | Req u => url_is_absolute u = true | _ => True end.
+  match e with
+  | Fetch _ u => url_is_absolute u = true
+  | Req k => url_is_absolute (key_url k) = true
+  | _ => True
+  end.
 Definition abs_url (u : string) : Prop := url_is_absolute u = true.
 (* a reference is fine under a hierarchical base with a scheme; without one (content of a data: URL) it must
    itself be absolute *)
@@ -447,18 +451,19 @@ Proof.
   intros Hw Hd. unfold sem_doc.
   assert (HL : forall lv u, abs_ev (Log lv u)) by (intros; exact I).
   assert (HE : forall x, abs_ev (Eff x)) by (intros; exact I).
-  assert (HF : forall ch u, ch <> ChImage -> abs_url u -> abs_ev (Fetch ch u)) by (intros ch u _ H; exact H).
-  assert (HR : forall u, abs_url u -> abs_ev (Req u)) by (intros u H; exact H).
+  assert (HF : forall ch u, ch <> ChImage -> ch <> ChUse -> abs_url u -> abs_ev (Fetch ch u))
+    by (intros ch u _ _ H; exact H).
+  assert (HR : forall k, abs_url (key_url k) -> abs_ev (Req k)) by (intros k H; exact H).
   pose proof (sheets_of_P W fails abs_ev abs_url abs_join HL HE HF abs_join_sound (d_base d) Hw (d_items d) Hd) as Hs.
   pose proof (sheets_of_I W fails abs_url abs_join abs_join_sound (d_base d) Hw (d_items d) Hd) as Hi.
   destruct (sheets_of W fails (d_base d) (d_items d)) as [es ci]. simpl in Hs, Hi.
-  assert (Hq : Forall (fun q => forall u, req_url q = Some u -> abs_url u)
+  assert (Hq : Forall (fun q => forall k, req_key q = Some k -> abs_url (key_url k))
                       (image_items (d_base d) (d_items d) ++ css_reqs ci)).
   { apply Forall_app. split.
     - apply (image_items_ok abs_url abs_join abs_join_sound). exact Hd.
     - unfold css_reqs. apply Forall_forall. intros q Hq. apply in_map_iff in Hq as [[[k id] a] [E Hin]].
       subst q. rewrite Forall_forall in Hi. specialize (Hi _ Hin). simpl in Hi.
-      intros u Hu. simpl in Hu. destruct a as [a|]; [|discriminate]. inversion Hu; subst. exact Hi. }
+      intros u Hu. simpl in Hu. destruct a as [a|]; [|discriminate]. inversion Hu; subst. simpl. exact Hi. }
   apply Forall_app. split; [exact Hs|].
   apply Forall_app. split.
   { apply Forall_forall. intros e He. apply in_flat_map in He as [q [Hin He]].
@@ -467,13 +472,13 @@ Proof.
     rewrite Forall_forall in H. exact (H _ He). }
   apply Forall_app. split.
   { apply Forall_forall. intros e He. apply in_flat_map in He as [q [_ He]].
-    pose proof (sem_draw_req_P W fails abs_ev abs_url abs_join HE HF abs_join_sound HR q Hw) as H.
+    pose proof (sem_draw_req_P W fails abs_ev abs_url abs_join HE abs_join_sound HR q Hw) as H.
     rewrite Forall_forall in H. exact (H _ He). }
   apply Forall_app. split; apply (attach_items_P W fails abs_ev abs_url abs_join HL HE HF abs_join_sound); exact Hd.
 Qed.
 
 Lemma abs_ev_fetches l : Forall abs_ev l ->
-  Forall abs_url (fetches l) /\ Forall abs_url (requests l).
+  Forall abs_url (fetches l) /\ Forall abs_url (map key_url (requests l)).
 Proof.
   induction l as [|e l IH]; intros H; [split; constructor|].
   inversion H as [|x y Hx Hy]; subst. destruct (IH Hy) as [A B].
@@ -488,8 +493,9 @@ Proof.
   apply Forall_forall. intros u Hu.
   apply (Permutation_in _ Hp) in Hu. apply in_app_or in Hu as [Hu|Hu].
   - rewrite Forall_forall in A. exact (A _ Hu).
-  - destruct (dedup_spec (requests (sem_doc W fails d)) []) as [_ [H2 _]].
-    destruct (H2 _ Hu) as [_ Hin]. rewrite Forall_forall in B. exact (B _ Hin).
+  - apply in_map_iff in Hu as [k [Ek Hk]]. subst u.
+    destruct (dedup_spec (requests (sem_doc W fails d)) []) as [_ [H2 _]].
+    destruct (H2 _ Hk) as [_ Hin]. rewrite Forall_forall in B. apply B. apply in_map. exact Hin.
 Qed.
 
 (* ---- examples: the hypotheses are satisfiable by non-trivial inputs, and the statements compute *)
@@ -506,8 +512,9 @@ Definition ex_world : world :=
     (ex_key ["d1"; "a.bin"], CBlob) ].
 Definition ex_doc : doc :=
   {| d_base := Some ex_base;
-     d_items := [ILink (RRel ["s.css"] ""); IImage KImg 5 (Some (RRel ["p.png"] "")) AltText;
-                 IImage KEmbed 6 (Some (RRel ["v.svg"] "")) AltNone;
+     d_items := [ILink (RRel ["s.css"] ""); IImage KImg 5 (Some (RRel ["p.png"] "")) AltText 0;
+                 IImage KImg 8 (Some (RRel ["p.png"] "")) AltNone 1;
+                 IImage KEmbed 6 (Some (RRel ["v.svg"] "")) AltNone 0;
                  IAttach ALink 7 (RRel ["a.bin"] ""); INoFetch (RRel ["favicon.ico"] "")] |}.
 Definition no_fail : fails_t := fun _ => None.
 
@@ -517,12 +524,12 @@ Proof. split; repeat constructor. Qed.
 Example ex_run :
   fetches (snd (m_doc ex_world no_fail [] ex_doc)) =
     ["http://h0/d1/s.css"; "http://h0/d1/sub/i.css"; "http://h0/d1/f1.otf"; "http://h0/d1/p.png";
-     "http://h0/d1/v.svg"; "http://h0/d1/o.svg#a"; "http://h0/d1/a.bin"] /\
+     "http://h0/d1/p.png"; "http://h0/d1/v.svg"; "http://h0/d1/o.svg#a"; "http://h0/d1/a.bin"] /\
   effects (snd (m_doc ex_world (upd no_fail "http://h0/d1/p.png" MHtml) [] ex_doc)) =
-    [ERule 3; ERule 1; EFont 2 true; EShown 5 ShAlt; EShown 6 ShImage; EShown 4 ShNothing;
+    [ERule 3; ERule 1; EFont 2 true; EShown 5 ShAlt; EShown 8 ShNothing; EShown 6 ShImage; EShown 4 ShNothing;
      EAttach "http://h0/d1/a.bin"] /\
   effects (snd (m_doc (remove_world "http://h0/d1/p.png" ex_world) no_fail []
                       (remove_doc "http://h0/d1/p.png" ex_doc))) =
-    [ERule 3; ERule 1; EFont 2 true; EShown 5 ShAlt; EShown 6 ShImage; EShown 4 ShNothing;
+    [ERule 3; ERule 1; EFont 2 true; EShown 5 ShAlt; EShown 8 ShNothing; EShown 6 ShImage; EShown 4 ShNothing;
      EAttach "http://h0/d1/a.bin"].
 Proof. repeat split; vm_compute; reflexivity. Qed.
